@@ -27,6 +27,7 @@ func init() {
 			c.run("C14-R9", "DATAFLOW: at every return of the relay handshake the flush flag is false whenever an error is set (helpers summarised)", c14Cells)
 			c.run("C14-S3", "shared with C13-R7: sides of the pumps, of the handshake's line readers and of the error report", c13Sides)
 			c.run("C14-S4", "shared with C13-R5: each relay pump goes on with the status the parking function re-read under the lock (so the end-of-transfer scan is not skipped on a stale 'handshaking')", c13R5)
+			c.run("C14-S5", "shared with C16-R7: the lines the relay writes itself (the narrowed action, its failure report) end the way the side they go to reads them — a handshake that works directly also works through the relay", c16R7)
 			c.run("C14-R6", "PAIR+GUARD-DOM (shared with C13-R1/R2): nothing can be parked after the flush, so no stale chunk is left for the next transfer's handshake", func(c *Ctx) { c13R1(c); c13R2(c) })
 		})
 }
